@@ -248,6 +248,543 @@ def run_qualify(ck, unproved):
 
 
 # ---------------------------------------------------------------------------
+# (3) rendering independence: abstract interface -> concrete AST -> WSDL text
+# ---------------------------------------------------------------------------
+# The concrete AST mirrors the XSD subset the renderings use.  References are
+# kept as (namespace index, local name); how they are spelled (prefix, default
+# namespace) is decided only when the text is written.
+
+XSD_NS = "http://www.w3.org/2001/XMLSchema"
+WSDL_NS = "http://schemas.xmlsoap.org/wsdl/"
+SOAP_NS = "http://schemas.xmlsoap.org/wsdl/soap/"
+
+
+class CE(object):
+    """element particle / global element declaration"""
+    def __init__(self, name=None, ref=None, tref=None, anon=None, opt=False, multi=False,
+                 nillable=False, default=None, form=None):
+        self.name, self.ref, self.tref, self.anon = name, ref, tref, anon
+        self.opt, self.multi, self.nillable, self.default, self.form = opt, multi, nillable, default, form
+
+
+class CC(object):
+    def __init__(self, kind, opt, kids):
+        self.kind, self.opt, self.kids = kind, opt, kids
+
+
+class CG(object):
+    """<group ref=.../>"""
+    def __init__(self, ref, opt):
+        self.ref, self.opt = ref, opt
+
+
+class CAnyP(object):
+    pass
+
+
+class CA(object):
+    def __init__(self, name, builtin, required, default):
+        self.name, self.builtin, self.required, self.default = name, builtin, required, default
+
+
+class CAG(object):
+    """<attributeGroup ref=.../>"""
+    def __init__(self, ref):
+        self.ref = ref
+
+
+class CT(object):
+    def __init__(self, name, base, content, attrs):
+        self.name, self.base, self.content, self.attrs = name, base, content, attrs
+
+
+class CGroupDef(object):
+    def __init__(self, name, content):
+        self.name, self.content = name, content
+
+
+class CAGroupDef(object):
+    def __init__(self, name, attrs):
+        self.name, self.attrs = name, attrs
+
+
+class Iface(object):
+    """An abstract interface: family schema + operations, and what may be
+    rewritten without changing it."""
+
+    def __init__(self, S, ops):
+        self.S, self.ops = S, ops
+        from . import family as F
+        refs = {}           # (ns, name) -> list of referrers ("elem", owner CType or None, Elem) | ("part",)
+        for t in S.types:
+            for p, _ in S.flat(t):
+                if isinstance(p, F.Elem) and p.tref[0] == "n":
+                    refs.setdefault((p.tref[1], p.tref[2]), []).append(("elem", t, p))
+        for op in ops:
+            if op.style == "wrapped":
+                refs.setdefault(tuple(op.in_type), []).append(("wrapper", None, op.name))
+            else:
+                for pn, tr in op.parts:
+                    if tr[0] == "n":
+                        refs.setdefault((tr[1], tr[2]), []).append(("part", None, pn))
+            if op.out_type is not None:
+                refs.setdefault(tuple(op.out_type), []).append(("wrapper", None, op.name + "Response"))
+        bases = set(t.base for t in S.types if t.base)
+        self.anonymizable = set()
+        for t in S.types:
+            key = (t.ns, t.name)
+            r = refs.get(key, [])
+            if t.base or key in bases or len(r) != 1:
+                continue
+            kind, owner, _ = r[0]
+            if kind == "wrapper" and t.ns == 0:
+                self.anonymizable.add(key)
+            elif kind == "elem" and owner is not t and owner.ns == t.ns:
+                self.anonymizable.add(key)
+        # an anonymizable type reachable only from itself through other anonymizable
+        # types would disappear: keep every cycle named
+        changed = True
+        while changed:
+            changed = False
+            for key in list(self.anonymizable):
+                kind, owner, _ = refs[key][0]
+                seen = set()
+                while kind == "elem" and (owner.ns, owner.name) in self.anonymizable:
+                    if (owner.ns, owner.name) in seen or (owner.ns, owner.name) == key:
+                        self.anonymizable.discard(key)
+                        changed = True
+                        break
+                    seen.add((owner.ns, owner.name))
+                    kind, owner, _ = refs[(owner.ns, owner.name)][0]
+
+
+class Plan(object):
+    """All concrete-syntax choices of one rendering (drawn from an rng; every
+    field can be overridden to switch one feature off again)."""
+
+    PFX_POOL = ["tns", "t0", "t1", "q", "impl", "typ", "m", "ns", "a", "b-c", "x_1", "my.ns", "ns1", "ns2", "p"]
+
+    def __init__(self, rng, iface, baseline=False):
+        from . import family as F
+        S = iface.S
+        nns = len(S.namespaces)
+        self.baseline = baseline
+        r = rng.random
+        if baseline:
+            self.prefixes = ["t%d" % i for i in range(nns)]
+            self.wsdl_pfx, self.soap_pfx, self.xsd_pfx = "wsdl", "soap", "xsd"
+            self.xsd_decl_on_block = False
+            self.anon, self.refs, self.groups, self.subgroups, self.agroups = set(), set(), set(), {}, {}
+            self.nblocks = [1] * nns
+            self.block_of = {}
+            self.shuffle = False
+            self.block_default = [None] * nns
+            self.block_local = [{} for _ in range(nns)]
+            self.redundant = False
+            self.wsdl_shuffle = False
+            self.local_wsdl_decl = False
+            self.wsdl_default_tns = False
+            self.seed = 0
+            return
+        self.seed = rng.randrange(1 << 30)
+        self.prefixes = rng.sample(self.PFX_POOL, nns)
+        self.wsdl_pfx = rng.choice(["wsdl", "wsdl", "w", ""])
+        self.soap_pfx = rng.choice(["soap", "soap", "s11", "wsoap"])
+        self.xsd_pfx = rng.choice(["xsd", "xsd", "xs", "s", ""])
+        self.xsd_decl_on_block = self.xsd_pfx == "" or r() < 0.3
+        self.anon = set(k for k in iface.anonymizable if r() < 0.5)
+        self.refs = set()          # element names written as ref= to a global declaration
+        self.groups = set()        # ids of Cont objects factored into a named group
+        self.subgroups = {}        # id(Cont) -> (i, j): kids[i:j] of a sequence factored into a group
+        self.agroups = {}          # (ns, type name) -> (i, j): attrs[i:j] factored into an attributeGroup
+        for t in S.types:
+            def walk(p, top):
+                if isinstance(p, F.Cont):
+                    if r() < 0.25:
+                        self.groups.add(id(p))
+                    elif p.kind == "sequence" and len(p.kids) >= 2 and r() < 0.25:
+                        i = rng.randrange(0, len(p.kids) - 1)
+                        j = rng.randrange(i + 1, len(p.kids) + 1)
+                        if j - i < len(p.kids):
+                            self.subgroups[id(p)] = (i, j)
+                    for k in p.kids:
+                        walk(k, False)
+                elif isinstance(p, F.Elem):
+                    if p.qualified and p.ns == t.ns and r() < 0.3:
+                        self.refs.add(p.name)
+            for p in t.content:
+                walk(p, True)
+            if t.attrs and r() < 0.4:
+                i = rng.randrange(0, len(t.attrs))
+                j = rng.randrange(i + 1, len(t.attrs) + 1)
+                self.agroups[(t.ns, t.name)] = (i, j)
+        self.nblocks = [rng.choice([1, 1, 2, 3]) for _ in range(nns)]
+        self.block_of = {}         # filled lazily: decl key -> block index (stable per plan)
+        self.shuffle = r() < 0.8
+        # per (ns, block): own namespace as default namespace?  local prefix respellings?
+        self.block_default = [[(r() < 0.3) for _ in range(3)] for _ in range(nns)]
+        self.block_local = [[dict((j, rng.choice(self.PFX_POOL + ["z%d" % j])) for j in range(nns) if r() < 0.3)
+                             for _ in range(3)] for _ in range(nns)]
+        self.redundant = r() < 0.3          # minOccurs="1" maxOccurs="1", explicit form= equal to the default
+        self.wsdl_shuffle = r() < 0.7
+        self.local_wsdl_decl = r() < 0.3    # prefixes declared on message/portType/binding/service
+        self.wsdl_default_tns = r() < 0.2   # unprefixed WSDL references under xmlns="<tns>"
+
+    def features(self):
+        f = set()
+        if self.anon:
+            f.add("anonymous-types")
+        if self.refs:
+            f.add("element-refs")
+        if self.groups or self.subgroups:
+            f.add("groups")
+        if self.agroups:
+            f.add("attribute-groups")
+        if max(self.nblocks) > 1:
+            f.add("split-blocks")
+        if self.shuffle:
+            f.add("declaration-order")
+        if self.wsdl_shuffle:
+            f.add("wsdl-order")
+        if self.xsd_pfx == "" or self.wsdl_pfx == "" or (not self.baseline and any(any(b) for b in self.block_default)):
+            f.add("default-namespace")
+        if not self.baseline:
+            f.add("prefix-names")
+        return f
+
+
+def build_ast(iface, plan):
+    """-> (decls per namespace index: list of (key, decl)), in abstract order"""
+    from . import family as F
+    S = iface.S
+    decls = [[] for _ in S.namespaces]
+    counter = [0]
+
+    def fresh(stem):
+        counter[0] += 1
+        return "%s%d" % (stem, counter[0])
+
+    def conv_type(t, named=True):
+        content = [conv_particle(p, t) for p in t.content]
+        attrs = [CA(a.name, a.builtin, a.required, a.default) for a in t.attrs]
+        rng_ = plan.agroups.get((t.ns, t.name))
+        if rng_:
+            i, j = rng_
+            gname = fresh("ag")
+            decls[t.ns].append((("agroup", gname), CAGroupDef(gname, attrs[i:j])))
+            attrs = attrs[:i] + [CAG((t.ns, gname))] + attrs[j:]
+        return CT(t.name if named else None, t.base, content, attrs)
+
+    def conv_tref(tr, owner_ns):
+        """-> (tref, anon)"""
+        if tr[0] == "n" and (tr[1], tr[2]) in plan.anon:
+            return None, conv_type(S.type(tr[1], tr[2]), named=False)
+        return tr, None
+
+    def conv_particle(p, t):
+        if isinstance(p, F.Elem):
+            tref, anon = conv_tref(p.tref, t.ns)
+            dflt_q = S.namespaces[t.ns][1]
+            if p.name in plan.refs:
+                decls[p.ns].append((("element", p.name),
+                                    CE(name=p.name, tref=tref, anon=anon, nillable=p.nillable, default=p.default)))
+                return CE(ref=(p.ns, p.name), opt=p.opt, multi=p.multi)
+            form = None
+            if p.qualified != dflt_q or plan.redundant:
+                form = p.qualified
+            return CE(name=p.name, tref=tref, anon=anon, opt=p.opt, multi=p.multi, nillable=p.nillable,
+                      default=p.default, form=form)
+        if isinstance(p, F.Any):
+            return CAnyP()
+        kids = [conv_particle(k, t) for k in p.kids]
+        sub = plan.subgroups.get(id(p))
+        if sub:
+            i, j = sub
+            gname = fresh("sg")
+            decls[t.ns].append((("group", gname), CGroupDef(gname, CC("sequence", False, kids[i:j]))))
+            kids = kids[:i] + [CG((t.ns, gname), False)] + kids[j:]
+        if id(p) in plan.groups:
+            gname = fresh("g")
+            decls[t.ns].append((("group", gname), CGroupDef(gname, CC(p.kind, False, kids))))
+            return CG((t.ns, gname), p.opt)
+        return CC(p.kind, p.opt, kids)
+
+    for t in S.types:
+        if (t.ns, t.name) in plan.anon:
+            continue
+        decls[t.ns].append((("type", t.name), conv_type(t)))
+    for op in iface.ops:
+        if op.style == "wrapped":
+            tref, anon = conv_tref(("n",) + tuple(op.in_type), 0)
+            decls[0].append((("element", op.name), CE(name=op.name, tref=tref, anon=anon)))
+        elif op.style == "bare":
+            for gname, tr in op.parts:
+                decls[0].append((("element", gname), CE(name=gname, tref=tr)))
+        if op.out_type is not None:
+            tref, anon = conv_tref(("n",) + tuple(op.out_type), 0)
+            decls[0].append((("element", op.name + "Response"), CE(name=op.name + "Response", tref=tref, anon=anon)))
+    return decls
+
+
+class BlockCtx(object):
+    """How references are spelled inside one <schema> block."""
+
+    def __init__(self, plan, iface, ns, b):
+        self.plan, self.S, self.ns = plan, iface.S, ns
+        self.X = plan.xsd_pfx
+        self.local = {} if plan.baseline else dict(plan.block_local[ns][b])
+        # a local respelling must not capture the XSD prefix of this block
+        for j in list(self.local):
+            if self.local[j] == self.X or self.local[j] in ("xsd", "xs", "s") and self.X:
+                del self.local[j]
+        # two local spellings must differ
+        seen = set()
+        for j in sorted(self.local):
+            if self.local[j] in seen:
+                del self.local[j]
+            else:
+                seen.add(self.local[j])
+        self.default_own = (not plan.baseline) and self.X != "" and plan.block_default[ns][b]
+        # a local spelling may shadow a definitions-level prefix of ANOTHER namespace;
+        # then that other namespace needs a local spelling too when it is referenced
+        shadowed = set(self.local.values())
+        for j, p in enumerate(plan.prefixes):
+            if p in shadowed and j not in self.local:
+                self.local[j] = "r%d" % j
+
+    def x(self, tag):
+        return (self.X + ":" + tag) if self.X else tag
+
+    def qname(self, ns, name):
+        if ns == self.ns and self.default_own:
+            return name
+        p = self.local.get(ns, self.plan.prefixes[ns])
+        return "%s:%s" % (p, name)
+
+    def tref(self, tr):
+        if tr[0] == "b":
+            return self.x(tr[1]) if self.X else tr[1]
+        return self.qname(tr[1], tr[2])
+
+    def nsdecls(self):
+        out = []
+        if self.plan.xsd_decl_on_block:
+            out.append('xmlns%s="%s"' % (":" + self.X if self.X else "", XSD_NS))
+        for j in sorted(self.local):
+            out.append('xmlns:%s="%s"' % (self.local[j], self.S.namespaces[j][0]))
+        if self.default_own:
+            out.append('xmlns="%s"' % self.S.namespaces[self.ns][0])
+        return out
+
+
+def write_particle(c, p, ind):
+    red = c.plan.redundant
+    if isinstance(p, CE):
+        a = ""
+        if p.ref is not None:
+            a += ' ref="%s"' % c.qname(*p.ref)
+        else:
+            a += ' name="%s"' % p.name
+            if p.tref is not None:
+                a += ' type="%s"' % c.tref(p.tref)
+        if p.opt:
+            a += ' minOccurs="0"'
+        elif red and p.ref is None:
+            a += ' minOccurs="1"'
+        if p.multi:
+            a += ' maxOccurs="unbounded"'
+        elif red and p.ref is None and p.name[-1] in "02468":
+            a += ' maxOccurs="1"'
+        if p.nillable:
+            a += ' nillable="true"'
+        if p.default is not None:
+            a += ' default="%s"' % p.default
+        if p.form is not None:
+            a += ' form="%s"' % ("qualified" if p.form else "unqualified")
+        if p.anon is not None:
+            return "%s<%s%s>\n%s\n%s</%s>" % (ind, c.x("element"), a, write_type(c, p.anon, ind + "  "), ind, c.x("element"))
+        return "%s<%s%s/>" % (ind, c.x("element"), a)
+    if isinstance(p, CAnyP):
+        return '%s<%s minOccurs="0"/>' % (ind, c.x("any"))
+    if isinstance(p, CG):
+        return '%s<%s ref="%s"%s/>' % (ind, c.x("group"), c.qname(*p.ref), ' minOccurs="0"' if p.opt else "")
+    body = "\n".join(write_particle(c, k, ind + "  ") for k in p.kids)
+    return "%s<%s%s>\n%s\n%s</%s>" % (ind, c.x(p.kind), ' minOccurs="0"' if p.opt else "", body, ind, c.x(p.kind))
+
+
+def write_attr(c, a, ind):
+    if isinstance(a, CAG):
+        return '%s<%s ref="%s"/>' % (ind, c.x("attributeGroup"), c.qname(*a.ref))
+    s = '%s<%s name="%s" type="%s"' % (ind, c.x("attribute"), a.name, c.tref(("b", a.builtin)))
+    if a.required:
+        s += ' use="required"'
+    elif c.plan.redundant:
+        s += ' use="optional"'
+    if a.default is not None:
+        s += ' default="%s"' % a.default
+    return s + "/>"
+
+
+def write_type(c, t, ind):
+    name = ' name="%s"' % t.name if t.name else ""
+    deep = ind + ("      " if t.base else "  ")
+    inner = [write_particle(c, p, deep) for p in t.content] + [write_attr(c, a, deep) for a in t.attrs]
+    if t.base:
+        return ("%s<%s%s>\n%s  <%s>\n%s    <%s base=\"%s\">\n%s\n%s    </%s>\n%s  </%s>\n%s</%s>"
+                % (ind, c.x("complexType"), name, ind, c.x("complexContent"), ind, c.x("extension"),
+                   c.qname(*t.base), "\n".join(inner), ind, c.x("extension"), ind, c.x("complexContent"),
+                   ind, c.x("complexType")))
+    return "%s<%s%s>\n%s\n%s</%s>" % (ind, c.x("complexType"), name, "\n".join(inner), ind, c.x("complexType"))
+
+
+def write_decl(c, d, ind="      "):
+    if isinstance(d, CT):
+        return write_type(c, d, ind)
+    if isinstance(d, CE):
+        return write_particle(c, d, ind)
+    if isinstance(d, CGroupDef):
+        return "%s<%s name=\"%s\">\n%s\n%s</%s>" % (ind, c.x("group"), d.name, write_particle(c, d.content, ind + "  "),
+                                                   ind, c.x("group"))
+    return "%s<%s name=\"%s\">\n%s\n%s</%s>" % (ind, c.x("attributeGroup"), d.name,
+                                               "\n".join(write_attr(c, a, ind + "  ") for a in d.attrs),
+                                               ind, c.x("attributeGroup"))
+
+
+def split_blocks(iface, plan, decls):
+    """-> list of (ns, block index, [(key, decl)]) in document order"""
+    import random
+    prng = random.Random(plan.seed)
+    out = []
+    for ns, ds in enumerate(decls):
+        nb = plan.nblocks[ns]
+        blocks = [[] for _ in range(nb)]
+        for key, d in ds:
+            b = plan.block_of.get((ns, key))
+            if b is None:
+                b = prng.randrange(nb)
+            blocks[min(b, nb - 1)].append((key, d))
+        for b in range(nb):
+            if plan.shuffle:
+                prng.shuffle(blocks[b])
+        for b in range(nb):
+            out.append((ns, b, blocks[b]))
+    if plan.shuffle:
+        # blocks of different namespaces may interleave; blocks of one namespace keep their order
+        tagged = list(out)
+        prng.shuffle(tagged)
+        order = {}
+        res = []
+        for ns, b, ds in tagged:
+            k = order.get(ns, 0)
+            order[ns] = k + 1
+            res.append([x for x in out if x[0] == ns and x[1] == k][0])
+        out = res
+    return out
+
+
+def render(iface, plan):
+    """-> (wsdl bytes, blocks) where blocks is what split_blocks returned"""
+    import random
+    S = iface.S
+    prng = random.Random(plan.seed + 1)
+    decls = build_ast(iface, plan)
+    blocks = split_blocks(iface, plan, decls)
+    W = (plan.wsdl_pfx + ":") if plan.wsdl_pfx else ""
+    SP = plan.soap_pfx + ":"
+    texts = []
+    for ns, b, ds in blocks:
+        c = BlockCtx(plan, iface, ns, b)
+        uri, qual = S.namespaces[ns]
+        attrs = ['targetNamespace="%s"' % uri, 'elementFormDefault="%s"' % ("qualified" if qual else "unqualified")]
+        if plan.shuffle and prng.random() < 0.5:
+            attrs.reverse()
+        attrs += c.nsdecls()
+        imports = "".join("      <%s namespace=\"%s\"/>\n" % (c.x("import"), u)
+                          for i, (u, _) in enumerate(S.namespaces) if i != ns)
+        texts.append("    <%s %s>\n%s%s\n    </%s>" % (c.x("schema"), " ".join(attrs), imports,
+                                                       "\n".join(write_decl(c, d) for _, d in ds), c.x("schema")))
+    tns = S.namespaces[0][0]
+    p0 = plan.prefixes[0]
+    local = plan.local_wsdl_decl
+    dflt = plan.wsdl_default_tns and plan.wsdl_pfx != ""
+
+    def wref(name):
+        return name if dflt else "%s:%s" % (p0, name)
+
+    def here(extra=""):
+        """declarations written on a message/portType/binding/service element"""
+        s = ""
+        if local:
+            s += ' xmlns:%s="%s"' % (p0, tns)
+        if dflt:
+            s += ' xmlns="%s"' % tns
+        return s
+
+    msgs, pt, bd, ports = [], {}, {}, []
+    for op in iface.ops:
+        if op.style == "wrapped":
+            inparts = '<%spart name="parameters" element="%s"/>' % (W, wref(op.name))
+        elif op.style == "bare":
+            inparts = "".join('<%spart name="p_%s" element="%s"/>' % (W, g, wref(g)) for g, _ in op.parts)
+        else:
+            # rpc parts reference types: spelled with the definitions-level prefixes / xsd prefix
+            def ptype(tr):
+                if tr[0] == "b":
+                    return "%s:%s" % (plan.xsd_pfx or "xsd_", tr[1])
+                return "%s:%s" % (plan.prefixes[tr[1]], tr[2])
+            inparts = "".join('<%spart name="%s" type="%s"/>' % (W, pn, ptype(tr)) for pn, tr in op.parts)
+        outparts = ""
+        if op.out_type is not None:
+            outparts = '<%spart name="parameters" element="%s"/>' % (W, wref(op.name + "Response"))
+        msgs.append('  <%smessage name="%sIn"%s>%s</%smessage>' % (W, op.name, here(), inparts, W))
+        msgs.append('  <%smessage name="%sOut"%s>%s</%smessage>' % (W, op.name, here(), outparts, W))
+        style = "rpc" if op.style == "rpc" else "document"
+        io = ['<%sinput message="%s"/>' % (W, wref(op.name + "In")), '<%soutput message="%s"/>' % (W, wref(op.name + "Out"))]
+        pt.setdefault(style, []).append('    <%soperation name="%s">%s</%soperation>' % (W, op.name, "".join(io), W))
+        if style == "rpc":
+            body = '<%sbody use="literal" namespace="%s"/>' % (SP, S.namespaces[op.body_ns][0])
+        else:
+            body = '<%sbody use="literal"/>' % SP
+        bd.setdefault(style, []).append(
+            '    <%soperation name="%s"><%soperation soapAction="act_%s" style="%s"/>'
+            '<%sinput>%s</%sinput><%soutput>%s</%soutput></%soperation>'
+            % (W, op.name, SP, op.name, style, W, body, W, W, body, W, W))
+    pieces = list(msgs)
+    for style in ("document", "rpc"):
+        if style not in pt:
+            continue
+        ops_pt, ops_bd = list(pt[style]), list(bd[style])
+        if plan.wsdl_shuffle:
+            prng.shuffle(ops_pt)
+            prng.shuffle(ops_bd)
+        pieces.append('  <%sportType name="pt_%s"%s>\n%s\n  </%sportType>' % (W, style, here(), "\n".join(ops_pt), W))
+        pieces.append('  <%sbinding name="b_%s" type="%s"%s>\n'
+                      '    <%sbinding style="%s" transport="http://schemas.xmlsoap.org/soap/http"/>\n%s\n'
+                      '  </%sbinding>' % (W, style, wref("pt_" + style), here(), SP, style, "\n".join(ops_bd), W))
+        ports.append('    <%sport name="port_%s" binding="%s"><%saddress location="http://unused.invalid/%s"/></%sport>'
+                     % (W, style, wref("b_" + style), SP, style, W))
+    pieces.append('  <%sservice name="svc"%s>\n%s\n  </%sservice>' % (W, here(), "\n".join(ports), W))
+    types = "  <%stypes>\n%s\n  </%stypes>" % (W, "\n".join(texts), W)
+    if plan.wsdl_shuffle:
+        pieces.append(types)
+        prng.shuffle(pieces)
+    else:
+        pieces.insert(0, types)
+    rootdecl = ['xmlns%s="%s"' % (":" + plan.wsdl_pfx if plan.wsdl_pfx else "", WSDL_NS),
+                'xmlns:%s="%s"' % (plan.soap_pfx, SOAP_NS)]
+    rootdecl += ['xmlns:%s="%s"' % (p, S.namespaces[i][0]) for i, p in enumerate(plan.prefixes)]
+    if not plan.xsd_decl_on_block:
+        rootdecl.append('xmlns:%s="%s"' % (plan.xsd_pfx, XSD_NS))
+    elif any(op.style == "rpc" for op in iface.ops):
+        rootdecl.append('xmlns:%s="%s"' % (plan.xsd_pfx or "xsd_", XSD_NS))
+    if plan.wsdl_shuffle:
+        prng.shuffle(rootdecl)
+    text = ("<?xml version='1.0' encoding='UTF-8'?>\n<%sdefinitions targetNamespace=\"%s\" %s>\n%s\n</%sdefinitions>\n"
+            % (W, tns, "\n ".join(rootdecl), "\n".join(pieces), W))
+    return text.encode("utf-8"), blocks
+
+
+# ---------------------------------------------------------------------------
 
 def run(ck):
     common.force_repo_path()
